@@ -232,7 +232,9 @@ pub fn record_near_end(out: &mut Out) {
     let two_pi = 2.0 * std::f64::consts::PI;
     for k in 0..n {
         let f = r.gen_range(-2.0 * two_pi..2.0 * two_pi);
-        let len = r.gen_range(0.01..two_pi - 0.01);
+        // (one arc in four is narrow: 1e-8 .. 1e-2 rad - distinct limits, however close, are limits)
+        let narrow = k % 4 == 1;
+        let len = if narrow { 10f64.powf(r.gen_range(-8.0..-2.0)) } else { r.gen_range(0.01..two_pi - 0.01) };
         // ordinary range (to = from + len) or the same arc written as a wrap-around range (to below from)
         let wrap = k % 3 == 2;
         let t = if wrap { f + len - two_pi } else { f + len };
@@ -248,10 +250,14 @@ pub fn record_near_end(out: &mut Out) {
         let (f_eff, len_eff) = if ctor == "from_degrees" { (from_deg[j].to_radians(), (to_deg[j].to_radians() - from_deg[j].to_radians()).rem_euclid(two_pi)) } else { (f, len) };
         let c = build(ctor, &from, &to, &from_deg, &to_deg);
         let turns = r.gen_range(-1..=1) as f64 * two_pi;
-        for (end, side, angle) in [("from", "outside", f_eff - 1e-9), ("from", "inside", f_eff + 1e-9), ("to", "inside", f_eff + len_eff - 1e-9), ("to", "outside", f_eff + len_eff + 1e-9)] {
+        let d_in = (len_eff / 4.0).min(1e-9);
+        let mut probes = vec![("from", "outside", f_eff - 1e-9), ("from", "inside", f_eff + d_in), ("to", "inside", f_eff + len_eff - d_in), ("to", "outside", f_eff + len_eff + 1e-9)];
+        // far from a narrow arc: half a radian beyond it
+        if narrow { probes.push(("to", "outside", f_eff + len_eff + 0.5)); probes.push(("from", "outside", f_eff - 0.5)); }
+        for (end, side, angle) in probes {
             let mut q = [0.0; 6];
             q[j] = angle + turns;
-            out.put(json!({"ev": "near-end", "ctor": ctor, "end": end, "side": side, "acc": c.compliant(&q), "wrap": wrap,
+            out.put(json!({"ev": "near-end", "ctor": ctor, "end": end, "side": side, "acc": c.compliant(&q), "wrap": wrap, "narrow": narrow,
                 "from_deg": from_deg[j], "to_deg": to_deg[j], "angle_rad": q[j]}));
         }
     }
